@@ -24,6 +24,8 @@ impl Wake for Flag {
 pub enum Ev {
     Open(usize),
     Change(usize),
+    /// didSave, with the text included (Some) or not
+    Save(Option<usize>),
     Close,
     /// let the k-th oldest unfinished handler run to completion (k = 0, 1)
     Advance(usize),
@@ -39,7 +41,7 @@ const TEXTS: [&str; 3] = [
 const DISK: &str = "let Ret = @(intrinsic(ret)) in let disk_e = 5 in ret disk_e";
 
 pub fn alphabet() -> Vec<Ev> {
-    vec![Ev::Open(0), Ev::Open(1), Ev::Change(1), Ev::Change(2), Ev::Close, Ev::Advance(0), Ev::Advance(1), Ev::Query]
+    vec![Ev::Open(0), Ev::Open(1), Ev::Change(1), Ev::Change(2), Ev::Save(None), Ev::Save(Some(0)), Ev::Close, Ev::Advance(0), Ev::Advance(1), Ev::Query]
 }
 
 /// protocol validity of a history from the client's point of view
@@ -55,7 +57,7 @@ fn valid(h: &[Ev]) -> bool {
                 open = true;
                 pending += 1;
             }
-            | Ev::Change(_) => {
+            | Ev::Change(_) | Ev::Save(_) => {
                 if !open {
                     return false;
                 }
@@ -159,6 +161,17 @@ fn run_history(dir: &std::path::Path, history: &[Ev]) -> Result<(String, Vec<(us
         for (step, ev) in history.iter().enumerate() {
             steps += 1;
             match *ev {
+                | Ev::Save(t) => {
+                    let mut h: Handler<'_> = Box::pin(server.did_save(DidSaveTextDocumentParams { text_document: TextDocumentIdentifier { uri: uri.clone() }, text: t.map(|t| TEXTS[t].to_string()) }));
+                    if let Some(t) = t {
+                        current = Some(t);
+                    }
+                    let flag = Arc::new(Flag(AtomicBool::new(false)));
+                    if !poll(&mut h, &flag) {
+                        settle(&flag).await?;
+                        pending.push((h, flag));
+                    }
+                }
                 | Ev::Open(t) | Ev::Change(t) => {
                     version += 1;
                     let mut h: Handler<'_> = if matches!(ev, Ev::Open(_)) {
@@ -258,7 +271,7 @@ impl Check for LspProtocol {
         format!("history prefix {:?} extended by every valid sequence of <= 2 further events, on a fresh cajun::Cajun server; document doc.zy, disk text {:?}, editor texts {:?}", self.prefixes[i], DISK, TEXTS)
     }
     fn rule(&self) -> String {
-        format!("every protocol-valid history of <= {} events over {{didOpen(text 0|1), didChange(text 1|2), didClose, advance(the oldest | second-oldest unfinished handler), documentSymbol request}} on one document of a fresh cajun::Cajun (the real LanguageServer handlers, created in arrival order and polled by the harness on a current-thread tokio runtime; after a handler starts its analysis the harness waits until the analysis has finished, so the only remaining choice is when its commit runs relative to later notifications — which `advance` enumerates); unfinished handlers finish in arrival order at the end; oracle: every documentSymbol answer (in the middle and at the end) lists exactly the symbols a fresh server gives for the text the document has at that moment (for a closed document: the disk text); states = histories, transitions = events executed on the implementation; non-trivial = histories with at least one didOpen/didChange whose commit is delayed past a later notification", self.depth)
+        format!("every protocol-valid history of <= {} events over {{didOpen(text 0|1), didChange(text 1|2), didSave(without text | with text 0), didClose, advance(the oldest | second-oldest unfinished handler), documentSymbol request}} on one document of a fresh cajun::Cajun (the real LanguageServer handlers, created in arrival order and polled by the harness on a current-thread tokio runtime; after a handler starts its analysis the harness waits until the analysis has finished, so the only remaining choice is when its commit runs relative to later notifications — which `advance` enumerates); unfinished handlers finish in arrival order at the end; oracle: every documentSymbol answer (in the middle and at the end) lists exactly the symbols a fresh server gives for the text the document has at that moment (for a closed document: the disk text); states = histories, transitions = events executed on the implementation; non-trivial = histories with at least one didOpen/didChange whose commit is delayed past a later notification", self.depth)
     }
     fn timeout(&self) -> std::time::Duration {
         std::time::Duration::from_secs(300)
@@ -314,7 +327,7 @@ impl Check for LspProtocol {
             let mut pend: usize = 0;
             for e in h {
                 match e {
-                    | Ev::Open(_) | Ev::Change(_) => {
+                    | Ev::Open(_) | Ev::Change(_) | Ev::Save(_) => {
                         if pend > 0 {
                             return true;
                         }
